@@ -15,6 +15,65 @@ def stepLine (line : String) : String :=
     | none => "err"
     | some (n', r, eff) => s!"{showRVResp r} | {showNode n'} | {showEffects eff}"
   | ["ECHO", node] => showNode (parseNode node)
+  | ["QUORUM", cfg, count] => showBool ((parseConfig cfg).hasQuorum (natOr count))
+  | ["ELECTION", now, node] =>
+    let r := (parseNode node).election (natOr now)
+    s!"{showNode r.1} | {showEffects r.2}"
+  | ["HEARTBEAT", now, node] =>
+    let r := (parseNode node).heartbeat (natOr now)
+    s!"{showNode r.1} | {showEffects r.2}"
+  | ["PREPRV", node, args] =>
+    let kv := parseKV args
+    match (parseNode node).prepareRV (natOr (kv.get "peer")) (parseBool (kv.get "pv")) with
+    | none => "nothing"
+    | some q => showRVReq q
+  | ["VOTEREPLY", now, node, args, req, resp] =>
+    let kv := parseKV args
+    let r := (parseNode node).onVoteReply (natOr now) (natOr (kv.get "peer")) (natOr (kv.get "round")) (parseRVReq req) (parseRVResp resp)
+    s!"{showNode r.1} | {showEffects r.2}"
+  | ["PREPAE", node, args] =>
+    let kv := parseKV args
+    match (parseNode node).prepareAE (natOr (kv.get "peer")) with
+    | .nothing => "nothing"
+    | .snapshot => "snapshot"
+    | .fatal => "FATAL"
+    | .panic => "PANIC"
+    | .request q => showAEReq q
+  | ["AEREPLY", now, node, args, req, resp] =>
+    let kv := parseKV args
+    let r := (parseNode node).onAEReply (natOr now) (natOr (kv.get "peer")) (natOr (kv.get "round")) (parseAEReq req) (parseAEResp resp)
+    s!"{showNode r.1} | {showEffects r.2.1} | snap={showBool r.2.2}"
+  | ["COMMIT", now, node] =>
+    let r := (parseNode node).commitStep (natOr now)
+    s!"{showNode r.1} | {showEffects r.2}"
+  | ["APPLY", now, node] =>
+    let r := (parseNode node).applyStep (natOr now)
+    let a := match r.2.2 with
+      | .none => "none"
+      | .noop i => s!"noop.{i}"
+      | .config i c ans => s!"config.{i}.{showConfig c}.{showBool ans}"
+      | .op e f => s!"op.{showEntry e}.{showBool f}"
+    s!"{showNode r.1} | {showEffects r.2.1} | applied={a}"
+  | ["READONLY", now, node] =>
+    let r := (parseNode node).readOnlyStep (natOr now)
+    let outs := r.2.map (fun o => match o with | .served t => s!"served.{t}" | .invalidLease t => s!"invalid.{t}")
+    s!"{showNode r.1} | outs={joinList outs}"
+  | ["SUBMIT", now, node, args] =>
+    let kv := parseKV args
+    let r := (parseNode node).submitReplicated (natOr now) (natOr (kv.get "data"))
+    s!"{showNode r.1} | {showEffects r.2.1} | out={reprStr r.2.2}"
+  | ["SUBMITRO", now, node, args] =>
+    let kv := parseKV args
+    let r := (parseNode node).submitReadOnly (natOr now) (natOr (kv.get "tag")) (parseBool (kv.get "lease"))
+    s!"{showNode r.1} | {showEffects r.2.1} | out={reprStr r.2.2}"
+  | ["ADD", now, node, args] =>
+    let kv := parseKV args
+    let r := (parseNode node).addServer (natOr now) (natOr (kv.get "id")) (parseBool (kv.get "voter"))
+    s!"{showNode r.1} | {showEffects r.2.1} | out={reprStr r.2.2}"
+  | ["REMOVE", now, node, args] =>
+    let kv := parseKV args
+    let r := (parseNode node).removeServer (natOr now) (natOr (kv.get "id"))
+    s!"{showNode r.1} | {showEffects r.2.1} | out={reprStr r.2.2}"
   | _ => match storageLine secs with
     | some r => r
     | none => "bad-op"
